@@ -9,7 +9,7 @@ use crate::report::{hash_f64s, par_run, Report};
 use crate::rng::Rng;
 use serde_json::json;
 
-pub const RULE: &str = "Each composite (BB, SLOW, ATR, MACD, PPO, KC, CE, CCI) runs in lock-step with separately constructed public building blocks (SMA, SD, EMA, FAST, TR, ATR, MIN, MAX, MAD) that the harness combines as documented, on seeded finite scalar streams of any sign (RAND and band families) and valid OHLCV bars with typical price != close, parameters sampled (periods 1..=300, multipliers {0,0.5,2,3,-1}); every component compared at every step within tau(t)*M (M^2*k^2 on the Bollinger half-width squared; x condition number, c<=1e6, for CCI and PPO); bit-identity is reported. This is a differential oracle between two code paths of the crate and does not use the harness's reference models. Non-trivial: stream longer than every period; distinct by hash of (composite, params, stream head).";
+pub const RULE: &str = "Each composite (BB, SLOW, ATR, MACD, PPO, KC, CE, CCI) runs in lock-step with separately constructed public building blocks (SMA, SD, EMA, FAST, TR, ATR, MIN, MAX, MAD) that the harness combines as documented, on seeded finite scalar streams of any sign (RAND and band families) and valid OHLCV bars with typical price != close, parameters sampled (periods 1..=300, multipliers {0,0.5,2,3,-1}); a fifth of the streams are repeated in a tiny (1e-12) or huge (1e9) price unit or negated; every component compared at every step within tau(t)*M (M^2*k^2 on the Bollinger half-width squared; x condition number, c<=1e6, for CCI and PPO); bit-identity is reported. This is a differential oracle between two code paths of the crate and does not use the harness's reference models. Non-trivial: stream longer than every period; distinct by hash of (composite, params, stream head).";
 
 fn per(rng: &mut Rng) -> usize {
     match rng.below(8) {
@@ -231,12 +231,22 @@ pub fn run(ctx: &Ctx) -> Report {
             if !bars && !kind.has_scalar() {
                 continue;
             }
-            // PPO's ratio needs a slow EMA away from zero: positive prices only
-            if kind == Kind::Ppo && !bars && idx % 4 == 0 {
-                continue;
-            }
+            // PPO on mixed-sign streams is judged only where its slow EMA is away from zero
+            // (condition number <= 1e6), like the property says
             let p = variant(kind, &mut rng);
             run_composite(rep, &p, &inputs);
+            if idx % 5 == 0 {
+                // the same stream in a tiny / huge price unit, and negated (spreads, de-meaned series)
+                let f = *rng.pick(&[1e-12, 1e9, -1.0, -1e-3]);
+                if f > 0.0 || kind.has_scalar() && !bars {
+                    let scaled: Vec<In> = inputs.iter().map(|x| match x {
+                        In::S(v) => In::S(v * f),
+                        In::B(b) => In::B(b.scale_prices(f)),
+                    }).collect();
+                    run_composite(rep, &p, &scaled);
+                    rep.count(if f < 0.0 { "streams.negated" } else { "streams.rescaled_unit" });
+                }
+            }
             rep.count(&format!("composite.{}", kind.name()));
             if len > p.max_period() {
                 rep.distinct_case(hash_f64s(kind as u64 * 131 + p.p[0] as u64 * 7 + p.p[1] as u64, &head));
